@@ -392,10 +392,18 @@ class _CKM(Entry):
         if init == "array":
             # explicit initial centres (the registry's cluster data for this class always has two columns)
             init = {"array": [[draw(st.integers(-16, 16)) / 2.0, draw(st.integers(-16, 16)) / 2.0] for _ in range(k)]}
-        return dict(cls=self.name, params=dict(n_clusters=k, strategy=draw(st.sampled_from(["distance", "gain"])), init=init,
+        strategy = draw(st.sampled_from(["distance", "gain", "distance", "gain", "weights"]))
+        return self._consistent(dict(cls=self.name, params=dict(n_clusters=k, strategy=strategy, init=init,
                                                kmeans0=draw(st.booleans()), random_state=draw(st.one_of(st.none(), st.integers(0, 9))),
                                                max_iter=draw(st.sampled_from([4, 10])), n_init=draw(st.sampled_from([1, 3])),
-                                               balanced_predictions=draw(st.booleans())))
+                                               balanced_predictions=draw(st.booleans()))))
+
+    @staticmethod
+    def _consistent(spec):
+        # strategy='weights' with balanced predictions is a documented refusal (assertion in predict)
+        if spec["params"]["strategy"] == "weights":
+            spec["params"]["balanced_predictions"] = False
+        return spec
 
     def data(self, draw):
         return d_cluster(draw, d_min=2, d_max=2)
@@ -506,8 +514,10 @@ class _DTLR(Entry):
     methods = ("predict", "predict_proba", "decision_path")
 
     def spec(self, draw):
+        # min_samples_split is documented as a count or a fraction of the training set
         return dict(cls=self.name, params=dict(estimator=s_classifier(draw, linear_only=draw(st.booleans()), warm=True), max_depth=draw(st.integers(1, 4)),
                                                min_samples_leaf=draw(st.integers(1, 3)), fit_improve_algo=draw(st.sampled_from(["auto", "none", "intercept_sort"])),
+                                               min_samples_split=draw(st.sampled_from([2, 2, 4, 0.25, 0.5])),
                                                gamma=draw(st.sampled_from([1.0, 2.0]))))
 
     def data(self, draw):
